@@ -11,9 +11,9 @@ type didOracle struct {
 	taint map[string]bool
 }
 
-func newDidOracle() *didOracle      { return &didOracle{taint: map[string]bool{}} }
-func (o *didOracle) Name() string   { return "did" }
-func (o *didOracle) End(e *Env)     {}
+func newDidOracle() *didOracle    { return &didOracle{taint: map[string]bool{}} }
+func (o *didOracle) Name() string { return "did" }
+func (o *didOracle) End(e *Env)   {}
 func (o *didOracle) once(e *Env, sub, step, detail, obj, msg string) {
 	key := sub + "|" + detail + "|" + obj
 	if o.taint[key] {
